@@ -1,7 +1,491 @@
 import BfeVerif.C40.Model
+import BfeVerif.Generated.C40
 namespace BfeVerif.C40
 
-theorem close_absent (s : State) (id : Nat) (h : find s id = none) : close s id = s := by
-  simp [close, h]
+def I32 (x : Int) : Prop := -2147483648 ≤ x ∧ x ≤ 2147483647
+
+/-! ### flow arithmetic -/
+
+theorem flowAdd_some (f n : Int) (hf : I32 f) (hn : I32 n) (hs : I32 (f + n)) : flowAdd f n = some (f + n) := by
+  unfold I32 at *
+  unfold flowAdd wrap32
+  have e : (f + n + 2147483648) % 4294967296 - 2147483648 = f + n := by omega
+  simp only [e]
+  by_cases h1 : f + n > n <;> by_cases h2 : f > 0 <;> simp [h1, h2] <;> omega
+
+theorem flowAdd_sound (f n f' : Int) (hf : I32 f) (hn : I32 n) (h : flowAdd f n = some f') :
+    f' = f + n ∧ I32 f' := by
+  unfold I32 at *
+  unfold flowAdd wrap32 at h
+  by_cases h1 : (f + n + 2147483648) % 4294967296 - 2147483648 > n <;> by_cases h2 : f > 0 <;>
+    simp [h1, h2] at h <;> subst h <;> omega
+
+theorem flowAdd_none (f n : Int) (hf : I32 f) (hn : I32 n) (h : flowAdd f n = none) : ¬ I32 (f + n) := by
+  intro hs
+  rw [flowAdd_some f n hf hn hs] at h
+  cases h
+
+/-! ### per-stream / global invariants -/
+
+/-- inbound side of one stream: the advertised window is never negative and, together with the bytes already
+    accepted and not yet read, never exceeds the initial grant; outbound window is an int32 (no wrap-around). -/
+def StOK (st : St) : Prop := 0 ≤ st.inflow ∧ st.inflow + st.buf ≤ 65536 ∧ I32 st.flow
+
+structure Inv (s : State) : Prop where
+  connIn : 0 ≤ s.connIn ∧ s.connIn ≤ 2147483647
+  connFlow : I32 s.connFlow
+  iws : I32 s.iws
+  sts : ∀ st ∈ s.streams, StOK st
+  ids : ∀ x ∈ s.opened, x ≤ s.maxId ∧ x % 2 = 1
+  incr : s.opened.Pairwise (· < ·)
+
+theorem inv_init (a : Nat) : Inv { adv := a } := by
+  constructor <;> simp [I32]
+
+theorem inv_kick (s : State) (b : Bool) (h : Inv s) : Inv { s with kick := b } := ⟨h.1, h.2, h.3, h.4, h.5, h.6⟩
+
+theorem sts_updSt (s : State) (id : Nat) (f : St → St) (h : ∀ st ∈ s.streams, StOK st)
+    (hf : ∀ x, StOK x → StOK (f x)) : ∀ st ∈ (updSt s id f).streams, StOK st := by
+  intro st hst
+  simp only [updSt, List.mem_map] at hst
+  obtain ⟨x, hx, rfl⟩ := hst
+  split
+  · exact hf x (h x hx)
+  · exact h x hx
+
+theorem inv_updSt (s : State) (id : Nat) (f : St → St) (h : Inv s) (hf : ∀ x, StOK x → StOK (f x)) :
+    Inv (updSt s id f) :=
+  ⟨h.1, h.2, h.3, sts_updSt s id f h.4 hf, h.5, h.6⟩
+
+theorem inv_updH (s : State) (id : Nat) (f : H → H) (h : Inv s) : Inv (updH s id f) :=
+  ⟨h.1, h.2, h.3, h.4, h.5, h.6⟩
+
+theorem inv_popCmd (s : State) (id : Nat) (h : Inv s) : Inv (popCmd s id) := inv_updH s id _ h
+theorem inv_setHead (s : State) (id : Nat) (c : Cmd) (h : Inv s) : Inv (setHead s id c) := inv_updH s id _ h
+
+theorem find_mem (s : State) (id : Nat) (st : St) (h : find s id = some st) : st ∈ s.streams :=
+  List.mem_of_find?_eq_some h
+
+theorem findAny_mem (s : State) (id : Nat) (st : St) (h : findAny s id = some st) : st ∈ s.streams :=
+  List.mem_of_find?_eq_some h
+
+/-- adding a non-negative amount to the connection's inbound window keeps it a non-negative int32 -/
+theorem connIn_add (c : Int) (k : Nat) (h : 0 ≤ c ∧ c ≤ 2147483647) (hk : (k : Int) ≤ 2147483647) :
+    0 ≤ (flowAdd c k).getD c ∧ (flowAdd c k).getD c ≤ 2147483647 := by
+  cases hfa : flowAdd c k with
+  | none => simpa using h
+  | some v =>
+    have := flowAdd_sound c k v ⟨by omega, h.2⟩ ⟨by omega, hk⟩ hfa
+    simp only [Option.getD_some]
+    unfold I32 at this
+    omega
+
+theorem inv_close (s : State) (id : Nat) (h : Inv s) : Inv (close s id) := by
+  unfold close
+  cases hf : find s id with
+  | none => exact h
+  | some st =>
+    have hst := h.4 st (find_mem s id st hf)
+    have hb : (st.buf : Int) ≤ 2147483647 := by unfold StOK at hst; omega
+    have hc := connIn_add s.connIn st.buf h.1 hb
+    simp only []
+    refine ⟨?_, h.2, h.3, ?_, h.5, h.6⟩
+    · show 0 ≤ (if st.buf > 0 then (flowAdd s.connIn st.buf).getD s.connIn else s.connIn) ∧ _
+      split
+      · exact hc
+      · exact h.1
+    · show ∀ x ∈ (updSt _ id _).streams, StOK x
+      apply sts_updSt
+      · exact h.4
+      · intro x hx
+        refine ⟨hx.1, ?_, hx.2.2⟩
+        show x.inflow + ((0 : Nat) : Int) ≤ 65536
+        have h1 := hx.2.1
+        have h2 : (0 : Int) ≤ (x.buf : Int) := Int.natCast_nonneg _
+        omega
+
+theorem inv_reset (s : State) (id c : Nat) (h : Inv s) : Inv (reset s id c).st :=
+  inv_kick _ _ (inv_close s id h)
+
+theorem growAll_ok (l : List St) (g : Int) (hg : I32 g) (l' : List St) (h : ∀ st ∈ l, StOK st)
+    (hr : growAll l g = some l') : ∀ st ∈ l', StOK st := by
+  induction l generalizing l' with
+  | nil => simp [growAll] at hr; subst hr; simp
+  | cons a t ih =>
+    unfold growAll at hr
+    have ha := h a (List.mem_cons_self)
+    have ht : ∀ st ∈ t, StOK st := fun st hst => h st (List.mem_cons_of_mem _ hst)
+    split at hr
+    · cases hfa : flowAdd a.flow g with
+      | none => simp [hfa] at hr
+      | some f =>
+        cases hgt : growAll t g with
+        | none => simp [hfa, hgt] at hr
+        | some t' =>
+          simp only [hfa, hgt, Option.some.injEq] at hr
+          subst hr
+          intro st hst
+          rcases List.mem_cons.mp hst with rfl | hst
+          · have := flowAdd_sound a.flow g f ha.2.2 hg hfa
+            exact ⟨ha.1, ha.2.1, this.2⟩
+          · exact ih t' ht hgt st hst
+    · cases hgt : growAll t g with
+      | none => simp [hgt] at hr
+      | some t' =>
+        simp only [hgt, Option.map_some, Option.some.injEq] at hr
+        subst hr
+        intro st hst
+        rcases List.mem_cons.mp hst with rfl | hst
+        · exact ha
+        · exact ih t' ht hgt st hst
+
+theorem wrap32_I32 (x : Int) : I32 (wrap32 x) := by unfold I32 wrap32; omega
+
+theorem wrap32_id (x : Int) (h : I32 x) : wrap32 x = x := by unfold I32 at h; unfold wrap32; omega
+
+theorem inv_step (s : State) (e : Ev) (h : Inv s) : Inv (step s e).st := by
+  have h0 : Inv { s with kick := false } := inv_kick s false h
+  cases e with
+  | syn id fin =>
+    simp only [step]
+    split
+    · exact h0
+    · split
+      · exact h0
+      · split
+        · exact inv_reset _ _ _ h0
+        · rename_i hz hbad heq
+          have hodd : id % 2 = 1 := by omega
+          have hgt : s.maxId < id := by
+            have : ¬ id < s.maxId := fun hh => hbad (Or.inr hh)
+            have : id ≠ s.maxId := heq
+            omega
+          simp only [apply_ite Res.st, ite_self]
+          have key : True := trivial
+          · 
+            refine ⟨h.1, h.2, h.3, ?_, ?_, ?_⟩
+            · intro st hst
+              rcases List.mem_append.mp hst with hst | hst
+              · exact h.4 st hst
+              · simp only [List.mem_singleton] at hst
+                subst hst
+                refine ⟨by show (0 : Int) ≤ 65536; omega, by show (65536 : Int) + ((0 : Nat) : Int) ≤ 65536; omega, ?_⟩
+                cases hfa : flowAdd 0 s.iws with
+                | none => simp [I32]
+                | some v => exact (flowAdd_sound 0 s.iws v (by simp [I32]) h.3 hfa).2
+            · intro x hx
+              rcases List.mem_append.mp hx with hx | hx
+              · have := h.5 x hx
+                exact ⟨by show x ≤ id; omega, this.2⟩
+              · simp only [List.mem_singleton] at hx
+                subst hx
+                exact ⟨Nat.le_refl _, hodd⟩
+            · refine List.pairwise_append.mpr ⟨h.6, List.pairwise_singleton _ _, ?_⟩
+              intro a ha b hb
+              simp only [List.mem_singleton] at hb
+              subst hb
+              have := (h.5 a ha).1
+              omega
+  | data id len fin =>
+    simp only [step]
+    split
+    · exact h0
+    · cases hf : find { s with kick := false } id with
+      | none => exact inv_reset _ _ _ h0
+      | some st =>
+        simp only []
+        split
+        · exact inv_reset _ _ _ h0
+        · split
+          · split
+            · exact inv_reset _ _ _ h0
+            · rename_i hav
+              cases hft : flowTake st.inflow s.connIn len with
+              | none => exact h0
+              | some ic =>
+                obtain ⟨i, c⟩ := ic
+                simp only []
+                unfold flowTake at hft
+                split at hft
+                · cases hft
+                · rename_i hle
+                  simp only [Option.some.injEq, Prod.mk.injEq] at hft
+                  have hc : c = wrap32 (s.connIn - len) := hft.2.symm
+                  have hst := h.4 st (find_mem _ id st hf)
+                  have hcl : (len : Int) ≤ s.connIn := by
+                    unfold available at hle; split at hle <;> omega
+                  have hcn := h.1
+                  apply inv_updSt
+                  · refine ⟨?_, h.2, h.3, h.4, h.5, h.6⟩
+                    show 0 ≤ c ∧ c ≤ 2147483647
+                    subst hc; unfold wrap32; omega
+                  · intro x hx
+                    split
+                    · rename_i hxl
+                      unfold StOK at hx ⊢
+                      refine ⟨?_, ?_, hx.2.2⟩
+                      · show 0 ≤ wrap32 (x.inflow - len); unfold wrap32; omega
+                      · show wrap32 (x.inflow - len) + ((x.buf + len : Nat) : Int) ≤ 65536
+                        unfold wrap32
+                        have : ((x.buf + len : Nat) : Int) = (x.buf : Int) + (len : Int) := by simp
+                        omega
+                    · exact hx
+          · apply inv_updSt _ _ _ h0
+            intro x hx
+            exact ⟨hx.1, hx.2.1, hx.2.2⟩
+  | wu id delta =>
+    simp only [step]
+    have hd : I32 ((delta % 2147483648 : Nat) : Int) := by unfold I32; omega
+    split
+    · cases hf : find { s with kick := false } id with
+      | none => exact h0
+      | some st =>
+        simp only []
+        cases hfa : flowAdd st.flow ((delta % 2147483648 : Nat) : Int) with
+        | none => exact inv_reset _ _ _ h0
+        | some f =>
+          simp only []
+          have hst := h.4 st (find_mem _ id st hf)
+          have hs := flowAdd_sound _ _ f hst.2.2 hd hfa
+          apply inv_kick
+          apply inv_updSt _ _ _ h0
+          intro x hx
+          exact ⟨hx.1, hx.2.1, hs.2⟩
+    · cases hfa : flowAdd s.connFlow ((delta % 2147483648 : Nat) : Int) with
+      | none => exact h0
+      | some f =>
+        have hs := flowAdd_sound _ _ f h.2 hd hfa
+        exact ⟨h.1, hs.2, h.3, h.4, h.5, h.6⟩
+  | rst id status =>
+    simp only [step]
+    split
+    · exact h0
+    · split
+      · exact inv_close _ _ h0
+      · split <;> exact h0
+  | iws val =>
+    simp only [step]
+    have hn : I32 (wrap32 (val : Int)) := wrap32_I32 _
+    have hbase : Inv { ({ s with kick := false } : State) with iws := wrap32 (val : Int) } :=
+      ⟨h.1, h.2, hn, h.4, h.5, h.6⟩
+    cases hg : growAll s.streams (wrap32 (wrap32 (val : Int) - s.iws)) with
+    | none => simpa [hg, goAway] using hbase
+    | some l =>
+      simp only [hg]
+      exact ⟨h.1, h.2, hn, growAll_ok s.streams _ (wrap32_I32 _) l h.4 hg, h.5, h.6⟩
+  | ping id =>
+    simp only [step]
+    split
+    · exact h0
+    · exact inv_kick s true h
+  | hcmd id c =>
+    simp only [step]
+    exact inv_updH _ _ _ h0
+
+theorem inv_handlers (s : State) (l : List H) (b : Bool) (h : Inv s) : Inv { s with handlers := l, kick := b } :=
+  ⟨h.1, h.2, h.3, h.4, h.5, h.6⟩
+
+theorem inv_takeOut (s : State) (id c : Nat) (h : Inv s) : Inv (takeOut s id c) := by
+  unfold takeOut
+  apply inv_updSt
+  · exact ⟨h.1, wrap32_I32 _, h.3, h.4, h.5, h.6⟩
+  · intro x hx
+    exact ⟨hx.1, hx.2.1, wrap32_I32 _⟩
+
+theorem inv_connInAdd (s : State) (k : Nat) (hk : (k : Int) ≤ 2147483647) (h : Inv s) :
+    Inv { s with connIn := (flowAdd s.connIn k).getD s.connIn, kick := true } :=
+  ⟨connIn_add s.connIn k h.1 hk, h.2, h.3, h.4, h.5, h.6⟩
+
+theorem inv_readUpd (s : State) (id k : Nat) (h : Inv s) :
+    Inv (updSt s id fun x =>
+      if k ≤ x.buf then
+        { x with buf := x.buf - k, inflow := if x.isOpen then (flowAdd x.inflow k).getD x.inflow else x.inflow }
+      else x) := by
+  apply inv_updSt s id _ h
+  intro x hx
+  split
+  · rename_i hk
+    unfold StOK at hx ⊢
+    have hcast : ((x.buf - k : Nat) : Int) = (x.buf : Int) - (k : Int) := by omega
+    refine ⟨?_, ?_, hx.2.2⟩
+    · show 0 ≤ (if x.isOpen = true then (flowAdd x.inflow k).getD x.inflow else x.inflow)
+      split
+      · cases hfa : flowAdd x.inflow k with
+        | none => simpa using hx.1
+        | some v =>
+          have := flowAdd_sound x.inflow k v ⟨by omega, by omega⟩ ⟨by omega, by omega⟩ hfa
+          simp only [Option.getD_some]; omega
+      · exact hx.1
+    · show (if x.isOpen = true then (flowAdd x.inflow k).getD x.inflow else x.inflow) + ((x.buf - k : Nat) : Int) ≤ 65536
+      split
+      · cases hfa : flowAdd x.inflow k with
+        | none => simp only [Option.getD_none]; omega
+        | some v =>
+          have := flowAdd_sound x.inflow k v ⟨by omega, by omega⟩ ⟨by omega, by omega⟩ hfa
+          simp only [Option.getD_some]; omega
+      · omega
+  · exact hx
+
+theorem inv_microH (s : State) (st : St) (hh : H) (hst : st ∈ s.streams) (h : Inv s) (s' : State) (o : List Out)
+    (hm : microH s st hh = some (s', o)) : Inv s' := by
+  have hstok := h.4 st hst
+  have hbuf : (st.buf : Int) ≤ 65536 := by unfold StOK at hstok; omega
+  unfold microH at hm
+  split at hm
+  · cases hm
+  · -- read
+    split at hm
+    · simp only [Option.some.injEq, Prod.mk.injEq] at hm; obtain ⟨rfl, _⟩ := hm; exact inv_popCmd _ _ h
+    · split at hm
+      · simp only [Option.some.injEq, Prod.mk.injEq] at hm
+        obtain ⟨rfl, _⟩ := hm
+        have hk : ∀ m : Nat, ((min m st.buf : Nat) : Int) ≤ 2147483647 := by
+          intro m
+          have : min m st.buf ≤ st.buf := Nat.min_le_right _ _
+          omega
+        split
+        · exact inv_popCmd _ _ (inv_readUpd _ hh.id _ (inv_connInAdd s _ (hk _) h))
+        · exact inv_setHead _ _ _ (inv_readUpd _ hh.id _ (inv_connInAdd s _ (hk _) h))
+      · split at hm
+        · simp only [Option.some.injEq, Prod.mk.injEq] at hm; obtain ⟨rfl, _⟩ := hm; exact inv_popCmd _ _ h
+        · cases hm
+  · -- write
+    split at hm
+    · simp only [Option.some.injEq, Prod.mk.injEq] at hm; obtain ⟨rfl, _⟩ := hm; exact inv_popCmd _ _ h
+    · split at hm
+      · split at hm
+        · simp only [Option.some.injEq, Prod.mk.injEq] at hm
+          obtain ⟨rfl, _⟩ := hm
+          have h1 := inv_updH _ hh.id (fun x => { x with sentHeader := true }) (inv_kick s true h)
+          split
+          · exact inv_popCmd _ _ h1
+          · exact inv_setHead _ _ _ h1
+        · simp only [Option.some.injEq, Prod.mk.injEq] at hm
+          obtain ⟨rfl, _⟩ := hm
+          exact inv_popCmd _ _ (inv_updH _ _ _ h)
+      · split at hm
+        · simp only [Option.some.injEq, Prod.mk.injEq] at hm; obtain ⟨rfl, _⟩ := hm; exact inv_popCmd _ _ h
+        · split at hm
+          · simp only [Option.some.injEq, Prod.mk.injEq] at hm
+            obtain ⟨rfl, _⟩ := hm
+            exact inv_setHead _ _ _ (inv_kick s true h)
+          · simp only [Option.some.injEq, Prod.mk.injEq] at hm
+            obtain ⟨rfl, _⟩ := hm
+            exact inv_popCmd _ _ (inv_updH _ _ _ h)
+  · -- send
+    split at hm
+    · simp only [Option.some.injEq, Prod.mk.injEq] at hm; obtain ⟨rfl, _⟩ := hm; exact inv_popCmd _ _ h
+    · split at hm
+      · simp only [Option.some.injEq, Prod.mk.injEq] at hm
+        obtain ⟨rfl, _⟩ := hm
+        split
+        · exact inv_popCmd _ _ (inv_takeOut _ _ _ h)
+        · exact inv_setHead _ _ _ (inv_takeOut _ _ _ h)
+      · cases hm
+  · -- finish
+    split at hm
+    · simp only [Option.some.injEq, Prod.mk.injEq] at hm
+      obtain ⟨rfl, _⟩ := hm
+      exact inv_close _ _ (inv_handlers s _ _ h)
+    · simp only [Option.some.injEq, Prod.mk.injEq] at hm
+      obtain ⟨rfl, _⟩ := hm
+      exact inv_handlers s _ _ h
+
+theorem inv_microS (s : State) (st : St) (hst : st ∈ s.streams) (h : Inv s) (s' : State) (o : List Out)
+    (hm : microS s st = some (s', o)) : Inv s' := by
+  unfold microS at hm
+  split at hm
+  · cases hm
+  · exact inv_microH s st _ hst h s' o hm
+
+theorem inv_microFirst (s : State) (l : List St) (hl : ∀ st ∈ l, st ∈ s.streams) (h : Inv s) (s' : State)
+    (o : List Out) (hm : microFirst s l = some (s', o)) : Inv s' := by
+  induction l with
+  | nil => cases hm
+  | cons a t ih =>
+    unfold microFirst at hm
+    cases hms : microS s a with
+    | some r =>
+      simp only [hms, Option.some.injEq] at hm
+      subst hm
+      exact inv_microS s a (hl a List.mem_cons_self) h _ _ hms
+    | none =>
+      simp only [hms] at hm
+      exact ih (fun st hst => hl st (List.mem_cons_of_mem _ hst)) hm
+
+theorem inv_settle (rev : Bool) (fuel : Nat) (s : State) (acc : List Out) (h : Inv s) :
+    Inv (settle rev fuel s acc).1 := by
+  induction fuel generalizing s acc with
+  | zero => exact h
+  | succ n ih =>
+    unfold settle
+    cases hm : microFirst s (if rev = true then s.streams.reverse else s.streams) with
+    | none => exact h
+    | some r =>
+      obtain ⟨s', o⟩ := r
+      simp only []
+      apply ih
+      apply inv_microFirst s _ _ h s' o hm
+      intro st hst
+      split at hst
+      · exact List.mem_reverse.mp hst
+      · exact hst
+
+theorem inv_stepQ (rev : Bool) (s : State) (e : Ev) (h : Inv s) : Inv (stepQ rev s e).st := by
+  have hs := inv_step s e h
+  cases hstat : (step s e).status <;> simp only [stepQ, hstat]
+  · exact inv_settle rev settleFuel _ _ hs
+  all_goals exact hs
+
+theorem inv_run (rev : Bool) (s : State) (evs : List Ev) (h : Inv s) : Inv (runScript rev s evs).2.2 := by
+  induction evs generalizing s with
+  | nil => exact h
+  | cons e t ih =>
+    have hq := inv_stepQ rev s e h
+    cases hstat : (stepQ rev s e).status <;> simp only [runScript, hstat]
+    · exact ih _ hq
+    all_goals exact hq
+
+theorem allowed_le (s : State) (st : St) :
+    allowed s st ≤ st.flow ∧ allowed s st ≤ s.connFlow ∧ allowed s st ≤ 16384 := by
+  simp only [allowed, available, maxFrame]
+  repeat' split
+  all_goals omega
+
+/-! ### panic sites of package bfe_spdy (regenerated list: BfeVerif.Generated.C40.panicSites) -/
+
+/-- disposition of every `panic(` site: ((file, function, message), disposition) -/
+def panicTable : List ((String × String × String) × String) := [
+  (("flow.go", "take", "internal error: took too much"),
+    "modelled (flowTake = none): unreachable from processData (C40_no_panic) and from the scheduler (C40_out_window: every chunk is at most available())"),
+  (("response_writer.go", "Header", "Header called after Handler finished"), "handler misuse after return: outside the model (scripted handlers stop using w at `finish`)"),
+  (("response_writer.go", "WriteHeader", "WriteHeader called after Handler finished"), "handler misuse after return: outside the model"),
+  (("response_writer.go", "write", "Write called after Handler finished"), "handler misuse after return: outside the model"),
+  (("response_writer.go", "handlerDone", "handlerDone called twice"), "called once from runHandler's defer: outside the model"),
+  (("response_writer.go", "Flush", "Header called after Handler finished"), "handler misuse after return: outside the model"),
+  (("response_writer.go", "CloseNotify", "CloseNotify called after Handler finished"), "handler misuse after return: outside the model"),
+  (("server_conn.go", "setTimeout", "internal error: bad request body"), "timeout API called with a body of another connection: outside the model"),
+  (("server_conn.go", "startFrameWrite", "internal error: can only be writing one frame at a time"), "writeFrames hand-off protocol (writingFrame flag): below the model's granularity; exercised"),
+  (("server_conn.go", "startFrameWrite", "internal error: attempt to send frame on half-closed-local stream"), "stateHalfClosedLocal only exists inside wroteFrame: below the model's granularity; exercised"),
+  (("server_conn.go", "startFrameWrite", "internal error: attempt to send a write %v on a closed stream"), "frames for closed streams are dropped by writeFrame before they reach the scheduler (fix C40-closed-stream-writes); modelled as skipped; exercised"),
+  (("server_conn.go", "wroteFrame", "internal error: expected to be already writing a frame"), "writeFrames hand-off protocol: below the model's granularity; exercised"),
+  (("server_conn.go", "wroteFrame", "unbuffered done channel passed in for type %T"), "all done channels are made with capacity 1: outside the model"),
+  (("server_conn.go", "wroteFrame", "internal error: expecting non-nil stream"), "FIN frames always carry their stream: outside the model"),
+  (("server_conn.go", "endsStream", "endsStream called on nil writeFramer"), "defensive: outside the model"),
+  (("server_conn.go", "closeStream", "invariant; can't close stream in state %v"), "modelled: `close` acts on streams found alive only (find); exercised"),
+  (("server_conn.go", "notePanic", "<expr>"), "re-panic of a recovered panic under a test hook: outside the model"),
+  (("server_flow_control.go", "sendWindowUpdate32", "negative update"), "n comes from a Read count or pipe.Discard(): never negative; outside the model"),
+  (("server_flow_control.go", "sendWindowUpdate32", "internal error; sent too many window updates without decrements?"), "modelled as flowAdd failing on an inbound window: per stream impossible by the trace invariant (inflow + unread <= 65536); for the connection window NOT proved (needs the sum over streams), exercised"),
+  (("server_process_frame.go", "processData", "internal error: should have a body in this state"), "stateOpen streams are created with a body pipe (hasBody = isOpen at creation): exercised"),
+  (("server_process_frame.go", "processData", "internal error: bad Writer"), "the fixed buffer holds 65536 bytes and inflow + unread <= 65536 (trace invariant): a short write would first be an error; exercised"),
+  (("server_write_sched.go", "putEmptyQueue", "queue must be empty"), "scheduler queue bookkeeping: below the model's granularity; exercised"),
+  (("server_write_sched.go", "take", "internal error: ws.maxFrameSize not initialized or invalid"), "maxFrameSize is the constant 16384: outside the model"),
+  (("server_write_sched.go", "take", "should be empty"), "scheduler scratch slice: below the model's granularity; exercised"),
+  (("server_write_sched.go", "streamWritableBytes", "internal error: ws.maxFrameSize not initialized or invalid"), "maxFrameSize is the constant 16384: outside the model"),
+  (("server_write_sched.go", "head", "invalid use of queue"), "scheduler queue bookkeeping: below the model's granularity; exercised"),
+  (("server_write_sched.go", "shift", "invalid use of queue"), "scheduler queue bookkeeping: below the model's granularity; exercised"),
+  (("spdy.go", "mustUint31", "out of range"), "not called in the package: outside the model") ]
+
+def classifySite (s : String × String × String) : Bool := panicTable.any fun e => e.1 == s
 
 end BfeVerif.C40
